@@ -26,6 +26,15 @@ Hypothesis commit_ok : forall lc c p ln len, c < lc ->
   c <= follower_commit ru lc c p ln len /\ follower_commit ru lc c p ln len <= N.max c (N.min lc (N.min ln len)).
 (* a response from an earlier term is dropped *)
 Hypothesis stale_ok : stale_ack_ignored ru = true.
+(* the follower's prev-entry test accepts only a matching term *)
+Hypothesis prev_sound : forall xt pt, prev_ok ru xt pt = true -> xt = pt.
+(* a vote is granted only to a candidate whose log is at least as up to date *)
+Hypothesis vote_sound : forall lli llt mli mlt g, vote_log_ok ru lli llt mli mlt g = true ->
+  N.ltb mlt llt || (N.eqb llt mlt && N.ltb mli lli) || (N.eqb llt mlt && N.eqb lli mli) = true.
+(* the leader picks a position of the ascending match list that at least a quorum of the values reach *)
+Hypothesis pick_ok : forall len qn, commit_pick ru len qn <= len - qn.
+(* ... and commits it only if the entry there is of its own term *)
+Hypothesis cterm_sound : forall et cur, commit_term_ok ru et cur = true -> et = cur.
 
 Notation nd_of s i := (nth_node (nodes s) i).
 Notation Ld a w c := (In (N.to_nat w, N.to_nat c) (Vote.leaders a)).
@@ -211,7 +220,7 @@ Proof.
   intros ls' Hls. exists ls'. auto.
 Qed.
 
-Lemma h_rv_K2 self nd t c lli llt ok : K2 nd (fst (h_rv self nd t c lli llt ok)).
+Lemma h_rv_K2 self nd t c lli llt ok : K2 nd (fst (h_rv ru self nd t c lli llt ok)).
 Proof.
   unfold h_rv. destruct (N.ltb_spec (term nd) t) as [Hlt|Hge].
   - cbn [step_down set_term_vote term]. rewrite N.eqb_refl.
@@ -256,12 +265,12 @@ Qed.
 
 (* try_advance_commit_index *)
 Lemma try_advance_shape y :
-  let x := try_advance cfg y in
+  let x := try_advance cfg ru y in
   log x = log y /\ term x = term y /\ rl x = rl y /\ lvs x = lvs y /\
   (commit x = commit y \/
    exists ls e, rl y = Leader /\ lvs y = Some ls /\ commit y < commit x /\
      commit x = (let ms := sort_asc (map snd (match_index ls) ++ [llen (log y)]) in
-                 nth (N.to_nat (llen ms - quorum cfg)) ms 0) /\
+                 nth (N.to_nat (commit_pick ru (llen ms) (quorum cfg))) ms 0) /\
      nth_entry (log y) (commit x) = Some e /\ eterm e = term y).
 Proof.
   unfold try_advance. destruct (rl y) eqn:Er; try (repeat split; auto; fail).
@@ -270,7 +279,8 @@ Proof.
     try (repeat split; auto; fail).
   match goal with |- context [match nth_entry ?l ?nc with Some _ => _ | None => _ end] => destruct (nth_entry l nc) as [e|] eqn:Ee end;
     try (repeat split; auto; fail).
-  destruct (N.eqb_spec (eterm e) (term y)) as [Et|]; try (repeat split; auto; fail).
+  destruct (commit_term_ok ru (eterm e) (term y)) eqn:Et; try (repeat split; auto; fail).
+  apply cterm_sound in Et.
   cbn [log term rl lvs commit]. repeat split; auto. right. exists ls, e. repeat split; auto.
 Qed.
 
@@ -279,7 +289,7 @@ Lemma h_aer_shape self nd from t succ mi :
   let x := h_aer cfg ru self nd from t succ mi in
   K2 nd x \/
   (exists ls, rl nd = Leader /\ t = term nd /\ succ = true /\ lvs nd = Some ls /\
-     x = try_advance cfg (Node (term nd) (voted nd) (rl nd) (votes nd) (log nd) (commit nd) (in_prevote nd) (prevotes nd)
+     x = try_advance cfg ru (Node (term nd) (voted nd) (rl nd) (votes nd) (log nd) (commit nd) (in_prevote nd) (prevotes nd)
                             (Some (LV (aset (next_index ls) from (mi + 1)) (aset (match_index ls) from mi) (adel (backoff ls) from))))).
 Proof.
   unfold h_aer. destruct (rl nd) eqn:Er; try (left; apply K2_refl).
@@ -422,7 +432,7 @@ Lemma si_aer s gl a gl' a' i src t fol mi ls :
   let nd := nd_of s i in
   let y := Node (term nd) (voted nd) (rl nd) (votes nd) (log nd) (commit nd) (in_prevote nd) (prevotes nd)
              (Some (LV (aset (next_index ls) src (mi + 1)) (aset (match_index ls) src mi) (adel (backoff ls) src))) in
-  SI (upd_node s i (try_advance cfg y) []) gl' a'.
+  SI (upd_node s i (try_advance cfg ru y) []) gl' a'.
 Proof.
   intros HF HS Hi Hl He Hin Hr Ht Hls nd y.
   pose proof HS as [S1 S2 S3 S4]. pose proof HF as [HR [HI [H8 [HM HC]]]].
@@ -445,7 +455,7 @@ Proof.
     rewrite Xl, Xt. destruct Xc as [Xc|[ls0 [e [_ [Els [Hlt [Hnc [Hent Het]]]]]]]].
     + rewrite Xc. cbn [y commit]. apply S1. exact Hi.
     + cbn [y lvs log term commit] in Els, Hlt, Hnc, Hent, Het. injection Els as <-. cbn [match_index] in Hnc. fold L' in Hnc.
-      set (nc := commit (try_advance cfg y)) in *.
+      set (nc := commit (try_advance cfg ru y)) in *.
       rewrite nth_entry_ent_at in Hent.
       pose proof (ent_at_some_len _ _ _ Hent) as [Hn1 Hn2].
       assert (Eg : log nd = gl (term nd)) by (apply (lm_L3 _ _ _ _ HM i Hi Hr)).
@@ -458,7 +468,11 @@ Proof.
       { unfold vals, llen. rewrite app_length, map_length. cbn [length].
         rewrite <- (map_length fst L'), Keys'. pose proof (peers_len cfg i Hi). lia. }
       assert (Hq : (N.to_nat (quorum cfg) <= cge nc vals)%nat).
-      { rewrite Hnc. apply quorum_reached; [fold q; fold n in quorum_ok; lia|]. rewrite Lv. fold q n in quorum_le |- *. lia. }
+      { rewrite Hnc. apply quorum_reached.
+        - fold q; fold n in quorum_ok; lia.
+        - rewrite Lv. fold q n in quorum_le |- *. lia.
+        - pose proof (pick_ok (llen (sort_asc vals)) (quorum cfg)) as Hpk.
+          unfold llen in Hpk |- *. rewrite len_sort in Hpk at 2. exact Hpk. }
       unfold vals in Hq. rewrite cge_app in Hq.
       assert (Hself : cge nc [llen (log nd)] = 1%nat).
       { unfold cge. cbn [filter]. destruct (N.leb_spec nc (llen (log nd))); [reflexivity|unfold llen in *; lia]. }
@@ -536,8 +550,8 @@ Proof.
     unfold valid_id. destruct (N.ltb_spec dst (n_nodes cfg)) as [_|]; [|lia]. cbn [fst].
     destruct m as [t cand lli llt|t g voter|t cand lli llt|t g voter|t ldr pi pt es lc|t succ fol mi]; cbn [deliver] in *; cbv zeta in *.
     + (* RV *)
-      destruct (h_rv dst (nd_of s dst) t cand lli llt ok) as [nd' r] eqn:Eh.
-      destruct (h_rv_resp cfg ru quorum_ok ack_ok _ _ _ _ _ _ _ _ _ Eh) as [tt [g [Er _]]]. subst r.
+      destruct (h_rv ru dst (nd_of s dst) t cand lli llt ok) as [nd' r] eqn:Eh.
+      destruct (h_rv_resp cfg ru quorum_ok ack_ok prev_sound vote_sound _ _ _ _ _ _ _ _ _ Eh) as [tt [g [Er _]]]. subst r.
       pose proof (h_rv_K2 dst (nd_of s dst) t cand lli llt ok) as HK. rewrite Eh in HK. cbn [fst] in HK.
       apply (si_frame s gl a gl' a' dst); auto.
       * intros d t0 ldr pi pt es lc [E|[]]. discriminate.
@@ -578,7 +592,7 @@ Proof.
            destruct (N.leb_spec pi (llen (log (nd_of s dst)))) as [Hle|]; [|discriminate]. split; [exact Hle|].
            rewrite nth_entry_ent_at in Elok. unfold term_at.
            destruct (ent_at (log (nd_of s dst)) (N.to_nat pi)) as [x0|] eqn:Ex.
-           ++ apply N.eqb_eq in Elok. cbn. congruence.
+           ++ apply prev_sound in Elok. cbn. congruence.
            ++ exfalso. unfold ent_at in Ex. destruct (N.to_nat pi) as [|kk] eqn:Ekk; [lia|].
               apply nth_error_None in Ex. unfold llen in Hle. lia.
         -- apply (si_frame s gl a gl' a' dst); auto.
@@ -615,7 +629,7 @@ Proof.
   - destruct (nth_error (pool s) (N.to_nat k)) as [[[src dst] m]|]; cbn [fst]; auto.
     destruct (N.ltb dst (n_nodes cfg)); cbn [fst]; auto.
     destruct m; cbn [deliver]; cbv zeta; auto.
-    + destruct (h_rv _ _ _ _ _ _ _); auto.
+    + destruct (h_rv _ _ _ _ _ _ _ _); auto.
     + destruct (h_pv _ _ _ _ _ _ _); auto.
     + destruct (h_ae _ _ _ _ _ _ _ _ _); auto.
 Qed.
@@ -626,7 +640,7 @@ Proof.
   intros [HF HS]. pose proof HF as [HR [HI [H8 [HM HC]]]].
   assert (HB : FIB cfg (Vote.leaders a) s gl).
   { exists a. split; [exact HR|]. split; [exact HI|]. split; [exact H8|]. split; [exact HM|]. split; [exact HC|apply incl_refl]. }
-  destruct (fi_step cfg ru quorum_ok ack_ok (Vote.leaders a) s gl o HB) as [gl' [[a' [HR' [HI' [H8' [HM' [HC' Hl]]]]]] He]].
+  destruct (fi_step cfg ru quorum_ok ack_ok prev_sound vote_sound (Vote.leaders a) s gl o HB) as [gl' [[a' [HR' [HI' [H8' [HM' [HC' Hl]]]]]] He]].
   exists gl', a'. split; [split|split]; auto.
   - split; [exact HR'|]. split; [exact HI'|]. split; [exact H8'|]. split; [exact HM'|exact HC'].
   - eapply si_step; eauto.
@@ -655,7 +669,7 @@ Qed.
 
 Lemma sfi_init : exists a, SFI (init_sys cfg) (fun _ => []) a.
 Proof.
-  destruct (FI_init cfg ru quorum_ok ack_ok) as [a [HR [HI [H8 [HM [HC _]]]]]].
+  destruct (FI_init cfg ru quorum_ok ack_ok prev_sound vote_sound) as [a [HR [HI [H8 [HM [HC _]]]]]].
   exists a. split; [|apply SI_init]. split; [exact HR|]. split; [exact HI|]. split; [exact H8|]. split; [exact HM|exact HC].
 Qed.
 
